@@ -227,6 +227,21 @@ let () =
     | _ -> raise (Parse_error "args"))
 
 
+(* ---- edismax for any similarity (C09): the per-field per-term score vectors are given, as exact rationals ----
+   (edismax_anysim n ((boost (vec ...)) ...) mm (tn td))   boost = none | (num den)   vec = ((num den) ...) *)
+let to_afield = function
+  | L [boost; L vecs] ->
+      { M.af_boost = (match boost with A "none" -> None | b -> Some (to_q b));
+        M.af_scores = List.map (to_list to_q) vecs }
+  | _ -> raise (Parse_error "afield")
+let () =
+  register "edismax_anysim" (function [n; fields; mm; tie] ->
+      of_api (of_list of_q) (M.edismax_anysim (to_nat n) (to_list to_afield fields) (to_mmspec mm) (to_q tie))
+    | _ -> raise (Parse_error "args"));
+  register "spec_edismax_anysim" (function [n; fields; mm; tie] ->
+      L [A "ok"; of_list of_q (M.anysim_spec (to_nat n) (to_list to_afield fields) (to_mmspec mm) (to_q tie))]
+    | _ -> raise (Parse_error "args"))
+
 (* ---- storage state machine (C18) ---- *)
 let () =
   register "store_run" (function [L ops] ->
